@@ -149,20 +149,31 @@ def fista_step(c, form='function', adaptive=True):
     Aarg = (AMat(A) if c.sym else A) if form == 'matrix' else Afun
     f = S.FISTA(Aarg, b, c.avec('x0'), prox, maxit=10 ** 9, stepsize=t, abstol=abstol, adaptive=adaptive)
     pre, cond, body, post, names, info = loops.split_loop(S.FISTA.solve, 0)
-    xk = c.avec('xk')
-    tag, val = body(dict(self=f, x=xk, stepsize=t, k=7))
-    spec = proxf(xk - t * Afun(Afun(xk, 1) - b, 2))
-    c.holds('prox_called_once_with_stepsize', len(calls) == 1)
-    c.eq('prox_gamma_is_stepsize', calls[0], t)
-    if tag == '__ret':
-        xr, k = val
-        c.eq('exit_is_prox_gradient_point', xr, spec)
-        c.holds('exit_fixed_point_residual', c.norm(xr - xk) <= abstol)
-    else:
-        c.holds('continues_only_if_not_converged', c.norm(spec - xk) > abstol)
-        mom = spec + ((7 + 1 - 1) / (7 + 1 + 2)) * (spec - xk) if adaptive else spec
-        c.eq('momentum_update', val['x'], mom)
-        c.holds('k_incremented', val['k'] == 8)
+    def one_step(rhs, label):
+        """one arbitrary iteration of the cut loop for the right-hand side the solver object currently holds"""
+        del calls[:]
+        tag0, st = pre({'self': f})                              # whatever solve() sets up before the loop, from the real code
+        c.eq(f'{label}starts_from_x0', st['x'], c.avec('x0')); c.holds(f'{label}counter_starts_at_zero', st['k'] == 0)
+        xk = c.avec('xk')
+        st = dict(st); st.update(x=xk, stepsize=t, k=7)
+        tag, val = body(st)
+        spec = proxf(xk - t * Afun(Afun(xk, 1) - rhs, 2))
+        c.holds(f'{label}prox_called_once_with_stepsize', len(calls) == 1)
+        c.eq(f'{label}prox_gamma_is_stepsize', calls[0], t)
+        if tag == '__ret':
+            xr, k = val
+            c.eq(f'{label}exit_is_prox_gradient_point', xr, spec)
+            c.holds(f'{label}exit_fixed_point_residual', c.norm(xr - xk) <= abstol)
+        else:
+            c.holds(f'{label}continues_only_if_not_converged', c.norm(spec - xk) > abstol)
+            mom = spec + ((7 + 1 - 1) / (7 + 1 + 2)) * (spec - xk) if adaptive else spec
+            c.eq(f'{label}momentum_update', val['x'], mom)
+            c.holds(f'{label}k_incremented', val['k'] == 8)
+    one_step(b, '')
+    # history: the same solver object is given a new right-hand side (public attribute) and solved again
+    b2 = c.avec('b2') if c.sym else np.array([c.real(f'bb{i}') for i in range(c.numdim + 1)])
+    f.b = b2
+    one_step(b2, 'after_reassigning_b:')
 
 
 # ---------------------------------------------------------------------------------------------
@@ -195,7 +206,6 @@ def lm_loop(c, m=2, n=2):
         c.holds('rejected_step_increases_damping', st2['nu'] > nu)
     else:
         c.eq('accepted_iterate_is_damped_gauss_newton_step', (Jf(xk).T @ Jf(xk) + nu * np.eye(n)) @ (xk - x2), gk)
-        c.holds('accepted_step_does_not_increase_damping', st2['nu'] <= nu)
     if not bool(cond(st2)):
         tagp, ret = post(st2)
         xr, inf = ret
@@ -269,7 +279,8 @@ def jobs(tier):
         J.append(Job(f'PCGLS.solve:loop0:{form}', lambda c, form=form: cgls_step(c, form, True), 'Pinf', F('PCGLS.solve', 'PCGLS._apply_A', 'PCGLS._apply_Pinv'), _extra))
         for ad in (True, False):
             J.append(Job(f'FISTA.solve:loop0:{form}:adaptive={ad}', lambda c, form=form, ad=ad: fista_step(c, form, ad), 'Pinf', F('FISTA.solve'), _extra))
-    J.append(Job('LM.solve:loop0:invariant_and_exit', lm_loop, 'Pbox', F('LM.solve', 'LM.__init__'), _extra, maxpaths=2048, timeout=900, rtol=1e-5))
+    for (m_, n_) in ((2, 1),) if tier == 'quick' else ((2, 1), (1, 2), (2, 2)):
+        J.append(Job(f'LM.solve:loop0:invariant_and_exit:m={m_}:n={n_}', lambda c, m_=m_, n_=n_: lm_loop(c, m_, n_), 'Pbox', F('LM.solve', 'LM.__init__'), _extra, maxpaths=2048, timeout=1500, rtol=1e-5))
     for w in ('minimize', 'maximize', 'L_BFGS_B', 'LS'):
         J.append(Job(f'{w}.solve:scipy_wrapper', lambda c, w=w: scipy_wrappers(c, w), 'Pbox', F(f'{w}.solve', f'{w}.__init__'), _extra))
     return J
